@@ -1,5 +1,5 @@
 use crate::{
-    geometry::Point,
+    geometry::{Dimensions, Point},
     primitives::{
         common::Scanline,
         rounded_rectangle::{RoundedRectangle, RoundedRectangleContains},
@@ -28,10 +28,14 @@ impl Iterator for Points {
     type Item = Point;
 
     fn next(&mut self) -> Option<Self::Item> {
-        self.current_scanline.next().or_else(|| {
+        loop {
+            if let Some(point) = self.current_scanline.next() {
+                return Some(point);
+            }
+
+            // A scanline can be empty, in which case the search continues in the next row.
             self.current_scanline = self.scanlines.next()?;
-            self.current_scanline.next()
-        })
+        }
     }
 }
 
@@ -56,36 +60,42 @@ impl Iterator for Scanlines {
         let columns = self.rounded_rectangle.columns.clone();
         let y = self.rounded_rectangle.rows.next()?;
 
+        // A row of a corner in which no point is inside the corner ellipse starts (ends) at the
+        // first column next to the corner, because `contains` rejects all points of this row
+        // that lie in the corner.
         let x_start = if y < self.rounded_rectangle.straight_rows_left.start {
+            let corner = &self.rounded_rectangle.top_left;
             columns
                 .clone()
-                .find(|x| self.rounded_rectangle.top_left.contains(Point::new(*x, y)))
+                .find(|x| corner.contains(Point::new(*x, y)))
+                .unwrap_or_else(|| corner.bounding_box().columns().end)
         } else if y >= self.rounded_rectangle.straight_rows_left.end {
-            columns.clone().find(|x| {
-                self.rounded_rectangle
-                    .bottom_left
-                    .contains(Point::new(*x, y))
-            })
+            let corner = &self.rounded_rectangle.bottom_left;
+            columns
+                .clone()
+                .find(|x| corner.contains(Point::new(*x, y)))
+                .unwrap_or_else(|| corner.bounding_box().columns().end)
         } else {
-            None
-        }
-        .unwrap_or(columns.start);
+            columns.start
+        };
 
         let x_end = if y < self.rounded_rectangle.straight_rows_right.start {
+            let corner = &self.rounded_rectangle.top_right;
             columns
                 .clone()
-                .rfind(|x| self.rounded_rectangle.top_right.contains(Point::new(*x, y)))
+                .rfind(|x| corner.contains(Point::new(*x, y)))
+                .map(|x| x + 1)
+                .unwrap_or_else(|| corner.bounding_box().columns().start)
         } else if y >= self.rounded_rectangle.straight_rows_right.end {
-            columns.clone().rfind(|x| {
-                self.rounded_rectangle
-                    .bottom_right
-                    .contains(Point::new(*x, y))
-            })
+            let corner = &self.rounded_rectangle.bottom_right;
+            columns
+                .clone()
+                .rfind(|x| corner.contains(Point::new(*x, y)))
+                .map(|x| x + 1)
+                .unwrap_or_else(|| corner.bounding_box().columns().start)
         } else {
-            None
-        }
-        .map(|x| x + 1)
-        .unwrap_or(columns.end);
+            columns.end
+        };
 
         Some(Scanline::new(y, x_start..x_end))
     }
